@@ -15,6 +15,13 @@ import (
 func runThreads(rt *world.Runtime, sim *simrt.Sim) {
 	w := rt.W
 	n := w.Threads
+	// prelude: operations with Thread < 0 run on the main thread before the
+	// caller threads start (e.g. the Redefine whose result the threads call)
+	for i, o := range w.Ops {
+		if o.Thread < 0 {
+			rt.RunOp(i)
+		}
+	}
 	var bodies []func()
 	for t := 0; t < n; t++ {
 		t := t
